@@ -427,6 +427,9 @@ pub fn run_raw(exe: &Path, args: &[OsString], env: &[(String, String)], stdin: &
             }
         }
     };
+    // the Command still owns this process's copy of the child's end of a socket or file given as standard input:
+    // while it is open a child that exits without reading would leave the writer below blocked for ever
+    drop(cmd);
     let id = NEXT.fetch_add(1, Ordering::Relaxed);
     let now = Instant::now();
     let is_search = args.iter().any(|a| a.to_string_lossy().contains("--vanity-prefix"));
